@@ -33,6 +33,7 @@ PROPS = {
     "C07": dict(run="^TestC07$", shards=(4, 16), deadline=(300, 1800)),
     "C11": dict(run="^TestC11$", shards=(4, 16), deadline=(300, 1800)),
     "C14": dict(run="^TestC14$", shards=(4, 16), deadline=(300, 1800)),
+    "C19": dict(run="^TestC19$", shards=(4, 16), deadline=(300, 1800)),
     "C12": dict(run="^TestC12$", shards=(4, 16), deadline=(300, 1800)),
     "C16": dict(run="^TestC16$", shards=(4, 16), deadline=(300, 1800)),
     "C17": dict(run="^TestC17$", shards=(4, 16), deadline=(300, 1800)),
